@@ -117,8 +117,17 @@ pub struct Report {
     samples: Vec<Value>,
 }
 
+static CURRENT: std::sync::Mutex<String> = std::sync::Mutex::new(String::new());
+
+/// The property of the report most recently created in this process (for verdicts that have
+/// to be printed from outside the normal flow, see `sched::start_watchdog`).
+pub fn current_property() -> String {
+    CURRENT.lock().unwrap().clone()
+}
+
 impl Report {
     pub fn new(property: &str, tier: &str, level: &str) -> Self {
+        *CURRENT.lock().unwrap() = property.to_string();
         let seed = std::env::var("VERIF_SEED")
             .ok()
             .and_then(|s| s.parse().ok())
